@@ -7,7 +7,10 @@ scheduler, canonical observations, schedule enumeration and the shrinker.
 Operation form (JSON; the Lean model `PyGqlModel/AsyncExec.lean` reads the same):
 
   case   = {"kind": "query" | "mutation", "fields": [field ...]}
-  field  = {"key": str, "mode": "sync" | "deferred" | "nested", "ty": ty, "out": fo}
+  case may carry "style": "plain" | "inline" | "spread" (how the top-level selection is written:
+           directly, inside `... on <Root> { }`, or through one fragment spread) — not part of the model.
+  field  = {"key": str, "mode": "sync" | "deferred" | "nested" | "ready", "ty": ty, "out": fo}
+           ("ready": the pool runs the task at submission, the executor receives an ALREADY FINISHED future)
   ty     = {"t":"int"} | {"t":"nn","of":ty} | {"t":"list","of":ty} | {"t":"obj","fields":[{"key","mode","ty"} ...]}
   fo     = {"r":"rerr"} | {"r":"exc"} | {"r":"ok","v": rv}          (what the resolver of this field *instance* does)
   rv     = null | int | "bad" | [rv ...] | {"<key>": fo ...}         (the resolved value, completed at `ty`)
@@ -26,7 +29,7 @@ import signal
 import warnings
 from concurrent.futures import Future
 
-MODES = ("sync", "deferred", "nested")
+MODES = ("sync", "deferred", "nested", "ready")
 
 
 # ---------------------------------------------------------------------------
@@ -52,11 +55,15 @@ def _resolver_error_cls():
         return HarnessResolverError
 
 
+WATCHDOG_S = 2.0     # wall-clock; a firing is only REPORTED after a confirmation run with CONFIRM_S (machine load!)
+CONFIRM_S = 25.0
+
+
 class watchdog:
     """Hard timeout around code of the repo that may block (Future.result() on a pending future)."""
 
-    def __init__(self, seconds=2.0):
-        self.seconds = seconds
+    def __init__(self, seconds=None):
+        self.seconds = seconds or WATCHDOG_S
         self.armed = False
 
     def __enter__(self):
@@ -99,6 +106,8 @@ def gen_mode(rng, p):
     r = rng.random()
     if r < p["p_sync"]:
         return "sync"
+    if rng.random() < p.get("p_ready", 0.0):
+        return "ready"
     return "nested" if rng.random() < p["p_nested"] else "deferred"
 
 
@@ -131,7 +140,7 @@ def gen_fo(rng, ty, p):
     return {"r": "ok", "v": gen_rv(rng, ty, p)}
 
 
-DEFAULT_P = {"max_sub": 3, "p_nn": 0.25, "p_sync": 0.4, "p_nested": 0.15, "p_null": 0.12, "p_bad": 0.0,
+DEFAULT_P = {"p_ready": 0.12, "max_sub": 3, "p_nn": 0.25, "p_sync": 0.4, "p_nested": 0.15, "p_null": 0.12, "p_bad": 0.0,
              "p_rerr": 0.12, "p_exc": 0.0}
 
 
@@ -142,7 +151,11 @@ def gen_case(rng, kind=None, n_top=None, depth=2, **over):
     keys = ["m%d" % (i + 1) for i in range(n_top)] if kind == "mutation" else ["q%d" % (i + 1) for i in range(n_top)]
     fdefs = [gen_fdef(rng, depth, p, k) for k in keys]
     fields = [dict(f, out=gen_fo(rng, f["ty"], p)) for f in fdefs]
-    return {"kind": kind, "fields": fields}
+    case = {"kind": kind, "fields": fields}
+    style = rng.choice(("plain", "plain", "inline", "spread"))
+    if style != "plain":
+        case["style"] = style
+    return case
 
 
 # ---------------------------------------------------------------------------
@@ -185,7 +198,7 @@ def count_tasks(case):
         return sum(c_f(f, rv[f["key"]]) for f in ty["fields"])
 
     def c_f(f, fo):
-        own = {"sync": 0, "deferred": 1, "nested": 2}[f["mode"]]
+        own = {"sync": 0, "deferred": 1, "nested": 2, "ready": 0}[f["mode"]]
         return own + (c_rv(f["ty"], fo["v"]) if fo["r"] == "ok" else 0)
 
     return sum(c_f(f, f["out"]) for f in case["fields"])
@@ -247,7 +260,14 @@ def _ty_doc(ty):
 
 def document(case):
     body = " ".join(f["key"] + _ty_doc(f["ty"]) for f in case["fields"])
-    return ("mutation" if case["kind"] == "mutation" else "query") + " { " + body + " }"
+    op = "mutation" if case["kind"] == "mutation" else "query"
+    root = "Mutation" if case["kind"] == "mutation" else "Query"
+    style = case.get("style", "plain")
+    if style == "inline":
+        return "%s { ... on %s { %s } }" % (op, root, body)
+    if style == "spread":
+        return "%s { ...Top } fragment Top on %s { %s }" % (op, root, body)
+    return op + " { " + body + " }"
 
 
 def r_explicit(root, ctx, info, **kw):
@@ -402,6 +422,17 @@ class ManualExecutor:
         if len(args) >= 3 and hasattr(args[2], "path"):
             e.path, e.stage = tuple(args[2].path), 1
             self.world.ev("call", e.path)
+            if self.world.table[e.path][0]["mode"] == "ready":
+                # the pool ran the task at once: the executor receives an already finished Future
+                try:
+                    r = fn(*args, **kwargs)
+                except Watchdog:
+                    raise
+                except BaseException as err:  # noqa
+                    e.fut.set_exception(err)
+                else:
+                    e.fut.set_result(r)
+                return e.fut
         else:
             e.path, e.stage = getattr(fn, "label", ("?",)), 2
         self.world.queue.append(e)
@@ -459,6 +490,15 @@ class AsyncWorld(World):
         self.ev("call", path)
         if f["mode"] == "sync":
             return self.body(path)
+        if f["mode"] == "ready":
+            fut = self.loop.create_future()
+            try:
+                fut.set_result(self.body(path))
+            except Watchdog:
+                raise
+            except BaseException as err:  # noqa
+                fut.set_exception(err)
+            return fut
         e = _Entry()
         e.fut = self.loop.create_future()
         e.path, e.stage = path, (1 if f["mode"] == "nested" else 2)
@@ -645,6 +685,8 @@ def run_asyncio(case, schedule):
                 steps += 1
             if not task.done():
                 return obs_of_result(w, status="pending", steps=steps)
+            if isinstance(task.exception(), Watchdog):
+                return obs_of_result(w, status="hang", steps=steps)
             if task.exception() is not None:
                 return obs_of_result(w, exc=task.exception(), status="failed", steps=steps)
             return obs_of_result(w, result=task.result(), status="ok", steps=steps)
@@ -664,6 +706,23 @@ def run_asyncio(case, schedule):
 
 
 RUNNERS = {"threadpool": run_threadpool, "asyncio": run_asyncio}
+
+
+def confirm_hang(case, config, schedule):
+    """Re-run one configuration with a long watchdog. True = it really does not complete (hang or pending)."""
+    global WATCHDOG_S
+    old = WATCHDOG_S
+    WATCHDOG_S = CONFIRM_S
+    try:
+        if config == "blocking":
+            obs = run_blocking(case)
+        elif config == "generic-blocking":
+            obs = run_blocking(case, generic=True)
+        else:
+            obs = RUNNERS[config](case, schedule or [])
+    finally:
+        WATCHDOG_S = old
+    return obs["status"] in ("hang", "pending")
 
 
 # ---------------------------------------------------------------------------
